@@ -145,6 +145,11 @@ func vhDescriptorCert(kd *types.KeyDescriptor) (string, bool) {
 func VH_C13_signing_key() {
 	sp := &SAMLServiceProvider{Clock: vClock("sp"), SignAuthnRequestsAlgorithm: vString("sigAlg")}
 	c := vhConfigureKeys(sp, false)
+	if vFlag("rejected-setter-call") {
+		// a key store without a signer is refused by the setter; the refused call must leave the configuration alone
+		serr := sp.SetSPSigningKeyStore(&KeyStore{Cert: vBytes("rejectedCert")})
+		vAssert("C13.signer-less-key-store-is-refused", serr != nil)
+	}
 	reported, rerr := sp.GetSigningCertBytes()
 	if c.haveSign && c.signFieldKey == c.keyB && c.FsFail {
 		vReach("signing-store-unavailable", true)
@@ -208,12 +213,12 @@ func VH_C19_keys() {
 	vAssert("C19.encryption-descriptor-present-iff-sp-can-decrypt", (ne == 1) == c.haveDec && ne <= 1)
 	if ekd != nil && c.haveDec {
 		d, ok := vhDescriptorCert(ekd)
-		vAssert("C19.encryption-descriptor-is-cert-of-decryption-key", vAnd(ok, d == vB64(c.decCert)))
+		vAssert("C19,C11.encryption-descriptor-is-cert-of-decryption-key", vAnd(ok, d == vB64(c.decCert)))
 	}
 	// the key that really decrypts (C11): getDecryptCert
 	dc, derr := sp.getDecryptCert()
 	if c.haveDec {
-		vAssert("C19.configured-decryption-key-is-usable", derr == nil)
+		vAssert("C19,C11.configured-decryption-key-is-usable", derr == nil)
 		if derr == nil {
 			vReach("decrypt-key", true)
 			okKey := false
@@ -224,7 +229,7 @@ func VH_C19_keys() {
 				s, isSigner := dc.PrivateKey.(crypto.Signer)
 				okKey = isSigner && s == c.decSigner
 			}
-			vAssert("C19.decrypts-with-the-key-whose-cert-is-published(setter-over-field)", okKey)
+			vAssert("C19,C11.decrypts-with-the-key-whose-cert-is-published(setter-over-field)", okKey)
 			vAssert("C19.decrypt-cert-is-published-cert", len(dc.Certificate) >= 1 && vBytesEq(dc.Certificate[0], c.decCert))
 		}
 	} else {
